@@ -183,28 +183,37 @@ type AuthReq struct {
 	AMR          []string
 	ACR          string
 	HintSubject  string
-	Prompt       []string
-	MaxAge       *uint
-	SessionState string
-	CreatedAt    time.Time
-	Code         string
+	// emptyChallenge: see GetCodeChallenge (copied from Store.EmptyChallenge when the request is created)
+	emptyChallenge bool
+	Prompt         []string
+	MaxAge         *uint
+	SessionState   string
+	CreatedAt      time.Time
+	Code           string
 }
 
-func (a *AuthReq) GetID() string                         { return a.ID }
-func (a *AuthReq) GetACR() string                        { return a.ACR }
-func (a *AuthReq) GetAMR() []string                      { return a.AMR }
-func (a *AuthReq) GetAudience() []string                 { return []string{a.ClientID} }
-func (a *AuthReq) GetAuthTime() time.Time                { return a.AuthTime }
-func (a *AuthReq) GetClientID() string                   { return a.ClientID }
-func (a *AuthReq) GetCodeChallenge() *oidc.CodeChallenge { return a.Challenge }
-func (a *AuthReq) GetNonce() string                      { return a.Nonce }
-func (a *AuthReq) GetRedirectURI() string                { return a.RedirectURI }
-func (a *AuthReq) GetResponseType() oidc.ResponseType    { return a.ResponseType }
-func (a *AuthReq) GetResponseMode() oidc.ResponseMode    { return a.ResponseMode }
-func (a *AuthReq) GetScopes() []string                   { return a.Scopes }
-func (a *AuthReq) GetState() string                      { return a.State }
-func (a *AuthReq) GetSubject() string                    { return a.Subject }
-func (a *AuthReq) Done() bool                            { return a.IsDone }
+func (a *AuthReq) GetID() string          { return a.ID }
+func (a *AuthReq) GetACR() string         { return a.ACR }
+func (a *AuthReq) GetAMR() []string       { return a.AMR }
+func (a *AuthReq) GetAudience() []string  { return []string{a.ClientID} }
+func (a *AuthReq) GetAuthTime() time.Time { return a.AuthTime }
+func (a *AuthReq) GetClientID() string    { return a.ClientID }
+func (a *AuthReq) GetCodeChallenge() *oidc.CodeChallenge {
+	if a.Challenge == nil && a.emptyChallenge {
+		// a storage that keeps challenge and method in two plain columns hands out an empty value, not nil, for
+		// requests that carried no challenge
+		return &oidc.CodeChallenge{}
+	}
+	return a.Challenge
+}
+func (a *AuthReq) GetNonce() string                   { return a.Nonce }
+func (a *AuthReq) GetRedirectURI() string             { return a.RedirectURI }
+func (a *AuthReq) GetResponseType() oidc.ResponseType { return a.ResponseType }
+func (a *AuthReq) GetResponseMode() oidc.ResponseMode { return a.ResponseMode }
+func (a *AuthReq) GetScopes() []string                { return a.Scopes }
+func (a *AuthReq) GetState() string                   { return a.State }
+func (a *AuthReq) GetSubject() string                 { return a.Subject }
+func (a *AuthReq) Done() bool                         { return a.IsDone }
 
 // AuthReqSS additionally exposes a session state (OIDC session management).
 type AuthReqSS struct{ *AuthReq }
@@ -403,6 +412,10 @@ type Store struct {
 	TrustJWTExpiry bool
 	// EmptyAudience: client-credentials requests answer an empty, non-nil audience list
 	EmptyAudience bool
+	// LenientEmptySecret: see AuthorizeClientIDSecret
+	LenientEmptySecret bool
+	// EmptyChallenge: auth requests without PKCE answer GetCodeChallenge with an empty struct instead of nil
+	EmptyChallenge bool
 	// counters of the rarely used capabilities
 	EndFromRequestCalls, ThirdPartyAccepted int
 }
@@ -595,7 +608,7 @@ func (s *Store) CreateAuthRequest(ctx context.Context, r *oidc.AuthRequest, user
 	defer s.mu.Unlock()
 	a := &AuthReq{ID: s.nextID("ar"), ClientID: r.ClientID, Scopes: append([]string(nil), r.Scopes...), RedirectURI: r.RedirectURI,
 		ResponseType: r.ResponseType, ResponseMode: r.ResponseMode, State: r.State, Nonce: r.Nonce, HintSubject: userID,
-		Prompt: append([]string(nil), r.Prompt...), MaxAge: r.MaxAge, CreatedAt: time.Now()}
+		Prompt: append([]string(nil), r.Prompt...), MaxAge: r.MaxAge, CreatedAt: time.Now(), emptyChallenge: s.EmptyChallenge}
 	if r.CodeChallenge != "" {
 		a.Challenge = &oidc.CodeChallenge{Challenge: r.CodeChallenge, Method: r.CodeChallengeMethod}
 	}
@@ -933,6 +946,11 @@ func (s *Store) AuthorizeClientIDSecret(ctx context.Context, id, secret string) 
 	c := s.Clients[id]
 	if c == nil {
 		return notFound{"client"}
+	}
+	if s.LenientEmptySecret && c.Auth == oidc.AuthMethodNone && c.Secret == "" && secret == "" {
+		// a storage that compares secrets plainly (as the example storage does): the empty secret of a public client
+		// "matches" an empty presentation. That nobody acts for a client on such a match is the library's part.
+		return nil
 	}
 	if c.Secret == "" || c.Secret != secret || c.Auth == oidc.AuthMethodNone || c.Auth == oidc.AuthMethodPrivateKeyJWT {
 		return errors.New("simstore: invalid secret")
